@@ -269,3 +269,14 @@ Proof.
   repeat split; try reflexivity; try (destruct fields; reflexivity).
   change [p0; p1; p2] with ([p0] ++ [p1; p2]). change [p1; p2; p0] with ([p1; p2] ++ [p0]). apply Permutation_app_comm.
 Qed.
+
+(* two typedefs of one tag (GObject / GInitiallyUnowned): wherever the structure body stands, both
+   records carry its fields *)
+Theorem second_typedef_order a b f0 fields p1 p2 p3 :
+  let f := f0 :: fields in
+  Forall2 same_record (tfinal (trun [TTypedef a p1; TTypedef b p2; TStruct f p3])) (tfinal (trun [TTypedef a p1; TStruct f p3; TTypedef b p2]))
+  /\ Forall2 same_record (tfinal (trun [TTypedef a p1; TTypedef b p2; TStruct f p3])) (tfinal (trun [TStruct f p3; TTypedef a p1; TTypedef b p2]))
+  /\ map r_fields (tfinal (trun [TTypedef a p1; TTypedef b p2; TStruct f p3])) = [f; f].
+Proof.
+  cbn. unfold same_record. repeat split; repeat constructor; cbn; try reflexivity; try apply perm_swap.
+Qed.
